@@ -280,19 +280,29 @@ def case_query_mixed(ctx, s: Subject):
     rng = ctx.rng
     if not usable_ty(s.ty):
         return
-    nf, labels, other = mk_nf(ctx, s)
-    a = rand_cond(rng, IDENT_NEST, s.ty, 0)
+    quoted = rng.random() < 0.5
+    nest_name = "my nest" if (quoted and rng.random() < 0.5) else IDENT_NEST
+    nf, labels, other = mk_nf(ctx, s, nest_name=nest_name)
+    other_name, base_fields = "other", [["id", "int64"], ["x", "double"]]
+    if quoted:
+        # names that need backticks in an expression: the refusal must not depend on how a name is spelled
+        nf["base col"] = nf["x"] * 2.0
+        nf = nf.rename(columns={"other": "other nest"})
+        other_name, base_fields = "other nest", [["base col", "double"]]
+    a = rand_cond(rng, nest_name, s.ty, 0)
     if rng.random() < 0.5 and usable_ty(other.ty):
-        b = rand_cond(rng, "other", other.ty, 0)
+        b = rand_cond(rng, other_name, other.ty, 0)
     else:
-        b = rand_cond(rng, None, [["id", "int64"], ["x", "double"]], 0)
+        b = rand_cond(rng, None, base_fields, 0)
+    if rng.random() < 0.5:
+        a, b = b, a
     k = rng.choice(["and", "or"])
     ej = {"op": k, "l": a[0], "r": b[0]}
     es = f"{a[1]} {k} {b[1]}"
     real = call_real(lambda: frame_view(nf.query(es)))
     ans = ctx.driver.call("frame.query", frame=frame_json(nf), expr=ej)
     ctx.case("query.mixed", {**s.desc(), "expr": es}, real, norm_frame(ans["model"]), {"err": "ValueError"}, hyp=s.hyp,
-             features=s.features, spec_ok="err" in real)
+             features=s.features + (f"quoted={quoted}",), spec_ok="err" in real)
 
 
 def case_query_flat(ctx, s: Subject):
